@@ -62,14 +62,35 @@ Theorem c10_segment_loop_no_panic : forall (fuel : list Z) (nagle : bool) (ss : 
     ss_offset segs' + rem' = ss_offset segs + remaining /\ 0 <= rem'.
 Proof. exact segment_loop_spec. Qed.
 
-(* BugRecvInClosed / BugUnexpectedPacketInSynReceived come from exactly those two states *)
+(* BugUnexpectedPacketInSynReceived comes from exactly that state; the table has no other Bug site
+   (BugRecvInClosed is gone with the repair of D15) *)
 Theorem c10_state_table_no_bug : forall (CC : Type) (s : vsock CC) (h : chdr),
-  v_state s <> Closed -> v_state s <> SynReceived ->
+  v_state s <> SynReceived ->
   match state_table s h with
   | TblErr _ e => e = ErrStResetReceived
   | TblDrop s' | TblContinue s' => v_state s' <> SynReceived
   end.
 Proof. exact @state_table_no_bug. Qed.
+
+(* D15 (repaired by a fix: commit in /repo): a closed connection ignores every packet still queued —
+   no Bug error, state untouched; only ST_RESET is reported, as the (non-Bug) reset error *)
+Theorem c10_closed_ignores_packets : forall (CC : Type) (s : vsock CC) (h : chdr),
+  v_state s = Closed ->
+  state_table s h =
+    match ch_type h with
+    | ST_RESET => TblErr (set_state s Closed) ErrStResetReceived
+    | _ => TblDrop s
+    end.
+Proof. exact @state_table_closed. Qed.
+
+Theorem c10_closed_ignores_messages : forall (CC : Type) (cci : cc_iface CC) (s : vsock CC) (m : msg),
+  v_state s = Closed ->
+  process_incoming_message cci s m =
+    match ch_type (m_hdr m) with
+    | ST_RESET => SErr (set_state s Closed) ErrStResetReceived
+    | _ => SOk s on_ack_result_default
+    end.
+Proof. exact @process_incoming_closed. Qed.
 
 (* ... and SynReceived never reaches the message loop: the SYN-ACK goes out first, or the
    transport is pending (and the poll returns Pending before reading the inbox) *)
@@ -102,7 +123,7 @@ Theorem c10_bounded_buffering : forall (CC : Type) (ti tm p : Z) (s : vsock CC),
   0 <= ss_len_bytes (v_segs s) <= Z.of_nat (length (ring (v_tx s))).
 Proof. exact @bounded_buffering. Qed.
 
-(* ---- refutations (each reproduced on the real code, see known findings) ---- *)
+(* ---- refutations (each reproduced on the real code, see known findings) and regressions ---- *)
 (* KF2 (a): a peer payload larger than the proven size, path limit below it *)
 Theorem c10_peer_payload_bug_refuted :
   exists w cfg ops,
@@ -119,13 +140,16 @@ Theorem c10_unsent_probe_ack_bug_refuted :
     last_result_is (wtrace w cfg ops) is_emsg_bug = true.
 Proof. exact unsent_probe_ack_bug_refuted. Qed.
 
-(* D15: Pending in state Closed (transport not writable), then any queued message *)
-Theorem c10_closed_pending_bug_refuted :
+(* D15 (repaired): the witness of the old defect as a regression example — Pending in state Closed
+   (transport not writable), then a queued message: the last poll still starts in Closed, and no step
+   of the trace panics or reports a Bug error *)
+Theorem c10_closed_pending_regression :
   exists w cfg ops,
     vconfig_ok cfg = true /\ Forall op_msg_ok ops /\
-    c10_step_ok cfg (wtrace w cfg ops) = false /\
-    c10_closed_pending_class cfg (wtrace w cfg ops) = true.
-Proof. exact closed_pending_bug_refuted. Qed.
+    last_pre_closed (wtrace w cfg ops) = true /\
+    c10_step_ok cfg (wtrace w cfg ops) = true /\
+    c10_closed_pending_class cfg (wtrace w cfg ops) = false.
+Proof. exact closed_pending_regression. Qed.
 
 Print Assumptions c10_inv_init.
 Print Assumptions c10_inv_app_events.
@@ -135,10 +159,12 @@ Print Assumptions c10_send_tx_queue_no_bug.
 Print Assumptions c10_split_no_bug.
 Print Assumptions c10_segment_loop_no_panic.
 Print Assumptions c10_state_table_no_bug.
+Print Assumptions c10_closed_ignores_packets.
+Print Assumptions c10_closed_ignores_messages.
 Print Assumptions c10_syn_ack_first.
 Print Assumptions c10_rx_add_remove_no_bug.
 Print Assumptions c10_truncate_front_no_bug.
 Print Assumptions c10_bounded_buffering.
 Print Assumptions c10_peer_payload_bug_refuted.
 Print Assumptions c10_unsent_probe_ack_bug_refuted.
-Print Assumptions c10_closed_pending_bug_refuted.
+Print Assumptions c10_closed_pending_regression.
